@@ -568,3 +568,23 @@ _add("C13", "ADDED: bzip2.Writer and meta.Writer THEMSELVES at implementation le
      "exact; Reset gives a Writer equal to a new one (false for an Init that keeps cntBuf: reset_with_stale_cntBuf_differs). "
      "Negative result proved and checked against Go: after the failed sink call at most two more sink calls happen inside the same "
      "user call and may repeat staged bytes (not a continuation) - the property constrains only bytes before the failure.")
+
+_LIFE = ("ADDED: the LIFECYCLE of flate.Reader at implementation level (Flate/ImplLife.v: Close, the latch, Reset; histories of "
+         "Read/Close/Reset in any order over scripted sources of both kinds compared PER CALL with the real Reader - bytes, error "
+         "class, both offsets, source position: WFLLIFE) with theorems for EVERY state, no reachability assumption "
+         "(Flate/ImplLifeThms.v, ImplLifeSim.v, ImplLifeWin.v): ")
+_add("C09", _LIFE + "once a Read has returned a non-nil error (io.EOF and the closed error included) every later Read returns no byte "
+     "and the same error and the state never changes; Close then returns nil for io.EOF/closed and the error otherwise "
+     "(flate_reader_error_is_sticky).")
+_add("C18", _LIFE + "Close touches neither source nor offsets nor window and drops pending output (flate_reader_close_frame); after "
+     "Close on a Reader whose error is latched every later Read/Close, in any order and number, returns the closed error / nil "
+     "(or the latched error) and changes nothing (flate_reader_closed_is_inert). Proved NEGATIVE result, outside the property: a "
+     "Close in the middle of a healthy stream closes nothing, drops the pending output and lets the next Read go on "
+     "(flate_reader_close_midstream_closes_nothing; witness replayed against Go).")
+_add("C14", _LIFE + "Reset of ANY state (mid-block, failed, closed, after EOF; tables, window contents, scratch arbitrary) followed by "
+     "any history is observed call by call exactly like a NEW Reader whose window buffer has the old capacity - the capacity "
+     "(4096/16384/32768 for reachable Readers) is the only thing that survives (flate_reader_reset_as_new, "
+     "..._reachable_capacity); at the level of whole streams nothing survives: same bytes and same final error as NewReader for "
+     "every input on Peek-capable sources and every valid input on both kinds (flate_reader_reset_same_stream_*). Proved "
+     "negative: call by call a grown buffer shows as a different split of the output over Read calls "
+     "(flate_reader_reset_keeps_capacity_refuted), a legal short-read difference.")
